@@ -471,4 +471,32 @@ theorem thenFlow_good (res : Nat → String) (s : String × List Stat × Bool) (
       simp only [thenFlow, if_true]
       exact ⟨doHandle_lastResult p.kind res p.flow t h0, doHandle_open_result p.kind res p.flow (hq p rfl) t⟩
 
+/-! ## stats order (used by `stats_order_is_execution_order`) -/
+
+/-- the k-th recorded stat is the k-th filter invocation of the request -/
+def StatsInOrder (res : Nat → String) (s : String × List Stat × Bool) : Prop :=
+  ∀ k (hk : k < s.2.1.length), s.2.1[k].result = res k
+
+theorem thenFlow_statsInOrder (res : Nat → String) (s : String × List Stat × Bool) (q : Option Pipe)
+    (hs : StatsInOrder res s) : StatsInOrder res (thenFlow res s q) := by
+  cases q with
+  | none => exact hs
+  | some q =>
+    unfold thenFlow
+    by_cases he : s.2.2 = false
+    · simp only [he, if_true]
+      obtain ⟨new, h⟩ := doHandle_trace q.kind res q.flow s.2.1
+      intro k hk
+      have heq := h.eq
+      simp only [heq] at hk ⊢
+      by_cases hlt : k < s.2.1.length
+      · rw [List.getElem_append_left hlt]; exact hs k hlt
+      · have hge : s.2.1.length ≤ k := Nat.le_of_not_lt hlt
+        rw [List.getElem_append_right hge]
+        have hk' : k - s.2.1.length < new.length := by
+          rw [List.length_append] at hk; omega
+        rw [h.results (k - s.2.1.length) hk']
+        congr 1; omega
+    · simp only [he, if_false]; exact hs
+
 end EgVerif.Pipeline
